@@ -92,7 +92,7 @@ func init() {
 
 // seeds below lfDirected are the systematic enumeration
 // (running or not) x (3 ways of loading) x (every failure kind)
-const lfDirected = 6 * 34
+const lfDirected = 6 * 35
 
 var lfFailKinds = []string{
 	"syntax", "unknown-directive",
@@ -104,6 +104,7 @@ var lfFailKinds = []string{
 	"loader-error",
 	"udp-port-in-use", // (with -quic only; "port-in-use" otherwise)
 	"setup-panic",     // (reloads only: a panic during Start is the end of the process)
+	"import-cycle",    // an imported file imports itself
 }
 
 func sha(pass string) string {
@@ -255,6 +256,9 @@ func (r *lfRig) failLines(cfg *lfCfg, fail, root string) string {
 		return "\tsimcb FAILSTARTUP\n"
 	case "setup-panic":
 		return "\tsimfail panic\n"
+	case "import-cycle":
+		os.WriteFile(filepath.Join(root, "cycle.conf"), []byte("header /cyc X-Cyc yes\nimport "+filepath.Join(root, "cycle.conf")+"\n"), 0644)
+		return "\timport " + filepath.Join(root, "cycle.conf") + "\n"
 	}
 	return ""
 }
